@@ -1,41 +1,40 @@
-(* C03: bounded characterisation of the control-flow reconstruction, by computation in the kernel over the
-   faithful model (JumpOpcode, condition_detect, break_detect, loop_detect).  The bounds are part of the
-   statements. *)
+(* C03: bounded, exhaustive part of the control-flow reconstruction, by computation in the kernel over the
+   faithful model (JumpOpcode, condition_detect with its exit-jump conversion, break_detect, loop_detect).  The
+   bounds are part of the statements.  Since the repair ca070ba of /repo (exit repeat recognised wherever it
+   stands) the statement is unconditional: every skeleton of the enumeration is reconstructed exactly, the four
+   former refutation witnesses included. *)
 From Coq Require Import ZArith List Bool String.
 From DRX Require Import Model.LingoAst Spec.SpecFlow.
 Import ListNotations.
 
-Definition safe_ok (l : list sk) : bool := bad l || reconstructed l.
-
-Lemma pattern_free_22 : forallb safe_ok (skeletons 2 2) = true.
+Lemma all_22 : forallb reconstructed (skeletons 2 2) = true.
 Proof. vm_compute. reflexivity. Qed.
-Lemma pattern_free_41 : forallb safe_ok (skeletons 4 1) = true.
+Lemma all_41 : forallb reconstructed (skeletons 4 1) = true.
 Proof. vm_compute. reflexivity. Qed.
 
-Lemma safe_ok_spec l : safe_ok l = true -> bad l = false -> reconstructed l = true.
-Proof. unfold safe_ok. intros H Hb. rewrite Hb in H. exact H. Qed.
-
-Theorem pattern_free_reconstructed :
-  forall l, In l (skeletons 2 2 ++ skeletons 4 1) -> bad l = false -> reconstructed l = true.
+Theorem all_reconstructed :
+  forall l, In l (skeletons 2 2 ++ skeletons 4 1) -> reconstructed l = true.
 Proof.
-  intros l Hin. apply safe_ok_spec. apply in_app_or in Hin. destruct Hin as [H|H].
-  - exact (proj1 (forallb_forall safe_ok _) pattern_free_22 l H).
-  - exact (proj1 (forallb_forall safe_ok _) pattern_free_41 l H).
+  intros l Hin. apply in_app_or in Hin. destruct Hin as [H|H].
+  - exact (proj1 (forallb_forall reconstructed _) all_22 l H).
+  - exact (proj1 (forallb_forall reconstructed _) all_41 l H).
 Qed.
 
 (* every construct on its own, and every nesting of two, is in the enumeration *)
 Example enumeration_sizes : List.length (skeletons 2 2) = 4430%nat /\ List.length (skeletons 4 1) = 5893%nat.
 Proof. vm_compute. split; reflexivity. Qed.
 
-(* the four open findings: smallest witnesses on which the reconstruction fails *)
-Example P1_refuted : reconstructed [SWhile 1 [SS 1; SX]] = false.
+(* how many of them contain one of the four exit-repeat patterns that were decompiled wrongly before the repair
+   (non-vacuity of the claim that the repair matters), and the four smallest witnesses *)
+Example formerly_bad : (List.length (filter bad (skeletons 2 2)) =? 0)%nat = false /\ (List.length (filter bad (skeletons 4 1)) =? 0)%nat = false.
+Proof. vm_compute. split; reflexivity. Qed.
+Example P1_now : reconstructed [SWhile 1 [SS 1; SX]] = true.
 Proof. vm_compute. reflexivity. Qed.
-Example P2_refuted : reconstructed [SWhile 1 [SIfE 2 [SS 1] [SX]]] = false.
+Example P2_now : reconstructed [SWhile 1 [SIfE 2 [SS 1] [SX]]] = true.
 Proof. vm_compute. reflexivity. Qed.
-Example P3_refuted : reconstructed [SWhile 1 [SIf 2 [SX; SS 1; SS 2]]] = false.
+Example P3_now : reconstructed [SWhile 1 [SIf 2 [SX; SS 1; SS 2]]] = true.
 Proof. vm_compute. reflexivity. Qed.
-Example P4_refuted : reconstructed [SWhile 1 [SIf 2 [SX]; SIf 3 [SS 1]]] = false.
+Example P4_now : reconstructed [SWhile 1 [SIf 2 [SX]; SIf 3 [SS 1]]] = true.
 Proof. vm_compute. reflexivity. Qed.
-(* and the form that does work: exit repeat as the last statement of a then-branch, followed by a loop *)
 Example exit_if_then_loop : reconstructed [SWhile 1 [SIf 2 [SS 1; SX]; SWith 2 [SS 2]]] = true.
 Proof. vm_compute. reflexivity. Qed.
